@@ -50,17 +50,17 @@ CFG = {
                   "Cut/Split/Atoi does too (sgr_bytes_split), hence ParseStyledString(EncodeCells cs) = cs and NewStyledString(Encode cs) = cs over "
                   "List Nat (roundtrip_cells_bytes, roundtrip_ss_bytes, roundtrip_cross_bytes, producers_consumers_agree_bytes). Round 3: the nine producer x consumer pairs as named forall-theorems "
                   "(delta_{encodeCells,ssEncode,render}_{parseSGR,emuSgr,ssParse}: all wf styles = all 128x128 masks x all colour classes x all underline styles, both format "
-                  "variants, every capability setting via capStyle) and over bytes (delta_*_bytes); encoded_shows_* and the emulator round trip over bytes (Props/C18Terminal); "
+                  "variants, every capability setting via capStyle) and over bytes (delta_*_bytes); encoded_shows_*, render_frame_shows and the emulator round trip over bytes (Props/C18Terminal); "
                   "hyperlinks at full strength: NewStyledString(Encode cs) = cs and NewStyledString(EncodeCells cs) = cs including URL and parameters (roundtrip_ss_links_full_bytes, roundtrip_cells_links_via_ss_full_bytes, hypothesis LinksRestorable = what the rtl oracle evaluates; "
                   "negation without it proved from a witness); ParseStyledString with its reading side inside the model (reader_single_read, parseStyledIO_eq, "
                   "roundtrip_cells_io: C02's ParserIO on the whole string in one read = the oracle model; reader_recognised: that is the reader the source builds).",
-    "level_note": "Proved for all inputs on the model (103 theorems, axioms propext/Classical.choice/Quot.sound only). Fixed in /repo: F48, F35 (round 1), "
+    "level_note": "Proved for all inputs on the model (106 theorems, axioms propext/Classical.choice/Quot.sound only). Fixed in /repo: F48, F35 (round 1), "
                   "F118, F119, F121 (round 2), F122 (round 3: ParseStyledString split a grapheme that straddled the parser's 4096-byte buffer; it now buffers the whole "
                   "string; parse_chunked_cuts_cluster shows the old reader failing on the model). Validated by correspondence only: that the byte-level model is the code "
                   "(encb / encbl: exact producer strings; decb: both string parsers on exact strings incl. junk parameter texts, with the uniseg cluster table, and the "
                   "ParserIO-based reader model beside the oracle model on every decb cells string; decbl: NewStyledString with hyperlink fields), grapheme segmentation "
                   "(hypotheses TextOK / Agrees), what each handled label does (the set of labels and arities is extracted). Outside the theorems: ParseStyledString on "
                   "invalid UTF-8 (C02's streams), hyperlinks through ParseStyledString (it drops them: not in the property text), cell widths (not in the "
-                  "property text; re-measured by the parsers), whole rendered frames at the byte level (the pen delta is: delta_render_bytes).",
+                  "property text; re-measured by the parsers), cursor movement / mode sequences of rendered frames (the SGR and text part is inside: renderFromB, render_frame_shows_bytes, op encb render).",
     "timeout": 1800,
 }
